@@ -89,7 +89,10 @@ int main(int argc, char **argv) {
         fams.push_back(f->name());
     std::string line;
     json c;
+    const size_t stopAfter = plan.value("stop_after_failures", 50);
     while (std::getline(std::cin, line)) {
+        if (failures >= stopAfter)
+            continue; // enough evidence: drain the input without running further cases
         if (!parseLine(line, c) || !c.contains("k"))
             continue;
         ++cases;
